@@ -917,9 +917,14 @@ func (sc *serverConn) writeDataFromHandler(stream *stream, data []byte, endStrea
 	sc.serveG.CheckNotOn() // NOT on serve goroutine
 
 	// prepare DataFrame
+	// This function may return (stream reset, connection closing) while the
+	// frame is still being written by writeFrames, and the caller then
+	// recycles data's backing array (responseWriterState.bw goes back to
+	// responseWriterStatePool and is handed to another connection's
+	// handler), so the frame must own its payload.
 	frame := &DataFrame{
 		StreamId: StreamId(stream.id),
-		Data:     data,
+		Data:     append([]byte(nil), data...),
 	}
 	if endStream {
 		frame.Flags = DataFlagFin
